@@ -43,7 +43,7 @@ static std::vector<CallRec>* g_log = nullptr;
 
 class Witness : public TriggeredEventHandler {
 public:
-    WSpec w; int idx; bool flipU;
+    WSpec w; int idx; bool flipU; bool shiftQ = false;
     Witness(const WSpec& ws, int idx, bool flipU = false)
         : TriggeredEventHandler(ws.kind == 2 ? Stage::Position : Stage::Time), w(ws), idx(idx), flipU(flipU) {
         getTriggerInfo().setTriggerOnRisingSignTransition((ws.mask & 2) != 0);
@@ -54,16 +54,18 @@ public:
     void handleEvent(State& s, Real, bool&) const override {
         if (g_log) g_log->push_back({100 + idx, s.getTime()});
         if (flipU) s.updU()[0] = -0.5 * s.getU()[0] + 0.25;
+        if (shiftQ) s.updQ()[0] += 0.0625;          // a handler that changes a position (lowers the stage to Position)
     }
 };
 class SchedList : public ScheduledEventHandler {
 public:
-    std::vector<double> ts;
+    std::vector<double> ts; bool terminateAtLast = false;
     Real getNextEventTime(const State& s, bool incl) const override {
         for (double t : ts) if (t > s.getTime() || (incl && t == s.getTime())) return t;
         return Infinity;
     }
-    void handleEvent(State& s, Real, bool&) const override { if (g_log) g_log->push_back({1, s.getTime()}); s.updU()[0] += 0.125; }
+    void handleEvent(State& s, Real, bool& term) const override { if (g_log) g_log->push_back({1, s.getTime()}); s.updU()[0] += 0.125;
+        if (terminateAtLast && !ts.empty() && s.getTime() == ts.back()) term = true; }
 };
 class PerH : public PeriodicEventHandler {
 public:
@@ -258,7 +260,7 @@ static void e2eSession(vh::Rng& r, int integ) {
     double rep = t0s + dtr;
     struct Win { double lo, hi; std::vector<int> idx, trans; };
     std::vector<Win> wins;
-    double worstState = 0, worstWidth = 0, worstBracket = 0, worstOrder = 0;
+    double worstState = 0, worstWidth = 0, worstBracket = 0, worstOrder = 0, worstStateBracket = 0;
     int guard = 0;
     while (I.getTime() < tEnd && guard++ < 20000) {
         Integrator::SuccessfulStepStatus st = I.stepTo(std::min(rep, tEnd), Inf);
@@ -278,6 +280,7 @@ static void e2eSession(vh::Rng& r, int integ) {
         if (I.getTime() != tLow || I.getAdvancedTime() != tHigh) worstState = 1;
         const Array_<EventId>& ids = I.getTriggeredEvents();
         Win W; W.lo = tLow; W.hi = tHigh;
+        bool winBracketOK = true;
         double tol = Inf;
         for (int i = 0; i < (int)ids.size(); ++i) {
             const int j = id2idx[(int)ids[i]];
@@ -288,7 +291,7 @@ static void e2eSession(vh::Rng& r, int integ) {
             nReported[j]++;
             const int sL = (eL > 0) - (eL < 0), sH = (eH > 0) - (eH < 0);
             const int tr = (sL == sH || sL == 0) ? 0 : (sL == 1 ? 1 : 2);
-            if ((tr & ws[j].mask) == 0 || (int)I.getEventTransitionsSeen()[i] != tr) worstBracket = 1;
+            if ((tr & ws[j].mask) == 0 || (int)I.getEventTransitionsSeen()[i] != tr) { winBracketOK = false; if (ws[j].kind == 2) worstStateBracket = 1; else worstBracket = 1; }
             if (i > 0 && I.getEstimatedEventTimes()[i - 1] > I.getEstimatedEventTimes()[i]) worstOrder = 1;
         }
         tol = std::max(tol, signif * std::max(1.0, tHigh + 1.0));
@@ -306,7 +309,7 @@ static void e2eSession(vh::Rng& r, int integ) {
         }
         L.s(isCP ? "cpodes" : "abstract").s(g_tag);
         L.emit();
-        vh::O("win").i(1).emit();
+        vh::O("win").i(winBracketOK ? 1 : 0).emit();    // the harness's own reading of the trigger values at the two returned states
         vh::D(nm + (ids.size() > 1 ? ".e2e.window.multi" : ".e2e.window"));
         if (r.below(3) == 0) I.reinitialize(Stage::Velocity, false);     // as after a handler that touched the state
     }
@@ -345,7 +348,11 @@ static void e2eSession(vh::Rng& r, int integ) {
     vh::P("events_and_windows_in_time_order", fam + ".e2e.order", worstOrder, 0);
     vh::P("no_crossing_skipped", fam + ".e2e.missed", missed, 0);
     vh::P("only_real_crossings_listed", fam + ".e2e.spurious", spurious, 0);
-    if (stateWit) vh::P("state_witness_sign_changes_all_reported", fam + ".e2e.state_witness", stateBad, 0);
+    if (stateWit) {
+        vh::P("state_witness_sign_changes_all_reported", fam + ".e2e.state_witness", stateBad, 0);
+        // the trigger evaluated on the HANDED-OUT before-state (tLow) and advanced state (tHigh) changes sign in the reported direction
+        vh::P("state_witness_changes_sign_across_returned_states", fam + ".e2e.state_witness_bracket", worstStateBracket, 0);
+    }
 }
 
 // ============================================================ mode ts
@@ -356,13 +363,16 @@ static void tsSession(vh::Rng& r, int integ) {
     WSpec w; w.kind = 0; w.a = r.range(0.1, 0.9 * tEnd); w.b = 0; w.mask = 3; w.window = 0.1;
     WSpec w2 = randomTimeWitness(r, 0, tEnd); w2.kind = 1; w2.a = r.range(1.0, 4.0); w2.b = r.range(0.3, 2.8); w2.mask = 1 + r.below(3);
     const bool flip = r.coin();
-    B.system.addEventHandler(new Witness(w, 0, flip));
+    Witness* w0h = new Witness(w, 0, flip); w0h->shiftQ = r.below(3) == 0;
+    const bool changes0 = flip || w0h->shiftQ;
+    B.system.addEventHandler(w0h);
     B.system.addEventHandler(new Witness(w2, 1, false));
     SchedList* sl = new SchedList; int ns = 1 + r.below(4);
     for (int i = 0; i < ns; ++i) sl->ts.push_back(r.range(0.05, tEnd));
     std::sort(sl->ts.begin(), sl->ts.end());
     if (r.below(3) == 0 && ns >= 1) sl->ts[0] = 0.25;     // often coincides with the periodic ones below
     std::sort(sl->ts.begin(), sl->ts.end());
+    sl->terminateAtLast = r.below(4) == 0;
     B.system.addEventHandler(sl);
     const double pH = (r.below(2) ? 0.25 : r.range(0.1, 0.5)), pR = (r.below(2) ? 0.125 : r.range(0.05, 0.3));
     B.system.addEventHandler(new PerH(pH));
@@ -374,7 +384,9 @@ static void tsSession(vh::Rng& r, int integ) {
     I.setAccuracy(std::pow(10.0, -r.range(2.0, 5.0)));
     if (integ != 6) I.setMaximumStepSize(0.3 * Pi / w2.a);
     TimeStepper ts(B.system, I);
-    ts.setReportAllSignificantStates(true);
+    const bool reportAll = r.below(3) != 0;     // false: the DEFAULT mode, driven by repeated stepTo(t + dt) with small dt
+    ts.setReportAllSignificantStates(reportAll);
+    const double dtStep = r.below(2) ? r.range(0.002, 0.02) : r.range(0.02, 0.2);
     ts.initialize(state);
     const bool isCP = integ >= 8;
     const std::string fam = isCP ? "TimeStepper.CPodes" : "TimeStepper";
@@ -385,7 +397,8 @@ static void tsSession(vh::Rng& r, int integ) {
     const double accTs = 0; (void)accTs;
     while (!I.isSimulationOver() && ts.getTime() < tEnd && guard++ < 100000) {
         const size_t l0 = log.size();
-        Integrator::SuccessfulStepStatus st = ts.stepTo(tEnd);
+        Integrator::SuccessfulStepStatus st = ts.stepTo(reportAll ? tEnd : std::min(tEnd, ts.getTime() + dtStep));
+        if (!reportAll) { if (st == Integrator::EndOfSimulation) break; continue; }
         Ret R{(int)st, 0, 0, 0};
         for (size_t i = l0; i < log.size(); ++i) { if (log[i].kind >= 100) R.nTrig++; else if (log[i].kind == 3) R.nRep++; else R.nSched++; }
         rets.push_back(R);
@@ -398,7 +411,7 @@ static void tsSession(vh::Rng& r, int integ) {
             const State& a = I.getAdvancedState(); pendingCheck = true; hq = a.getQ()[0]; hu = a.getU()[0]; ht = a.getTime();
             // only handlers that changed the state lead to StartOfContinuousInterval
             bool changed = false;
-            for (size_t i = l0; i < log.size(); ++i) if (log[i].kind == 1 || (log[i].kind == 100 && flip)) changed = true;
+            for (size_t i = l0; i < log.size(); ++i) if (log[i].kind == 1 || (log[i].kind == 100 && changes0)) changed = true;
             if (!changed) pendingCheck = false;
         }
     }
@@ -410,6 +423,8 @@ static void tsSession(vh::Rng& r, int integ) {
     L.s(g_tag).emit();
     vh::O("ts").i(1).emit();
     vh::D(std::string(INTEG_NAMES[integ]) + ".ts");
+    vh::D(reportAll ? "class.ts.reportAll" : "class.ts.default_mode");
+    if (w0h->shiftQ) vh::D("class.ts.handler_changes_q"); if (sl->terminateAtLast) vh::D("class.ts.terminating_handler");
     // ---- predicates
     double order = 0;
     for (size_t i = 1; i < log.size(); ++i) if (log[i - 1].t > log[i].t) order = 1;
@@ -432,6 +447,14 @@ static void tsSession(vh::Rng& r, int integ) {
       const double tol = I.getAccuracyInUse() * B.system.getDefaultTimeScale() * w.window;
       if (w.a < tDone - 2e-3) { if (got.size() != 1 || !(got[0] >= w.a - 1e-12 && (isCP || got[0] - w.a <= tol))) trigBad = 1; }
       else if (got.size() > 1) trigBad = 1; }
+    double termBad = 0;
+    if (sl->terminateAtLast && !sl->ts.empty() && sl->ts.back() < tEnd - 1e-9) {
+        const double tT = sl->ts.back();
+        if (!I.isSimulationOver() || I.getTerminationReason() != Integrator::EventHandlerRequestedTermination) termBad = 1;
+        if (ts.getTime() != tT) termBad = std::max(termBad, 2.0);
+        for (auto& c : log) if (c.t > tT) termBad = std::max(termBad, 3.0);
+    }
+    vh::P("terminating_handler_ends_simulation_at_its_time", fam + ".terminate", termBad, 0);
     vh::P("handlers_in_time_order", fam + ".order", order, 0);
     vh::P("scheduled_exactly_at_time", fam + ".scheduled_exact", schedBad, 0);
     vh::P("periodic_handler_exactly_at_times", fam + ".periodic_handler_exact", perHBad, 0);
